@@ -1,8 +1,9 @@
 (** The fold over `git log --name-status` entries (Model/GitChanges.step) refines an abstract, specification-level
     lineage: the chain of log entries obtained by following a path backwards through the log ([trace]).
-    Proved by induction over ALL logs, under the guard [fresh_dst] (a rename never lands on a path that still has a live
-    change chain); the unguarded statement is refuted by a three-entry log (delete b; rename a -> b; modify b).
-    Also: path unquoting inverts git's C-style quoting for every byte string. *)
+    Proved by induction over ALL logs, with no guard (since fix d9e7954: the most recent record for a path is the one
+    that is continued, and only that record is dropped).  The specification is indexed by a depth [k]: a path can carry
+    several records at once (a deletion of b, then a rename a -> b: both end at b); [k = 0] is the file that is at the path
+    now -- what getChangeByPath returns --, [k+1] the record it shadows. *)
 From Coq Require Import List String Ascii ZArith NArith Bool Lia.
 From PintV Require Import Common.Bytes Model.GitChanges.
 Import ListNotations.
@@ -16,17 +17,26 @@ Section Trace.
 
   Definition live (e : entry) : bool := allowed (le_dst e) && negb (is_dir (le_dst e)).
 
-  (** Specification: the chain of entries that produced path [p], walking the log backwards (newest entry first).
-      An entry whose destination is [p] joins the chain and the walk continues with its source; an entry that renames
-      [p] away ends the walk: whatever happened to that name before belongs to another file. *)
-  Fixpoint trace (rev_log : list entry) (p : string) : list entry :=
+  (** Specification: the chain of entries that produced the [k]-th most recent file at path [p], walking the log
+      backwards (newest entry first).
+      - an entry that modifies [p] in place (src = dst = p) belongs to the file currently at [p] (k = 0) and is
+        irrelevant for the files that one shadows;
+      - an entry that moves another path onto [p] is the last step of the file currently at [p] (k = 0; the walk
+        continues with its source); going further back it is the point where the file now at depth k was at depth k-1;
+      - an entry that renames [p] away took the file that was then at [p] with it: what is at depth k now was at depth
+        k+1 before. *)
+  Fixpoint trace (rev_log : list entry) (p : string) (k : nat) : list entry :=
     match rev_log with
     | [] => []
     | e :: older =>
-      if negb (live e) then trace older p
-      else if String.eqb (le_dst e) p then trace older (le_src e) ++ [e]
-      else if String.eqb (le_src e) p then []
-      else trace older p
+      if negb (live e) then trace older p k
+      else if String.eqb (le_dst e) p then
+        match k with
+        | O => trace older (le_src e) O ++ [e]
+        | S k' => if String.eqb (le_src e) p then trace older p k else trace older p k'
+        end
+      else if String.eqb (le_src e) p then trace older p (S k)
+      else trace older p k
     end.
 
   (** the change record a chain stands for: origin from its first entry, destination/status from its last, all commits *)
@@ -41,40 +51,40 @@ Section Trace.
 
   Definition fold (es : list entry) : list change := fold_log type_at allowed is_dir es.
 
-  (** guard: a rename/copy (dst <> src) never lands on a path that already has a live chain *)
-  Definition fresh_dst (log : list entry) : Prop :=
-    forall prefix e rest, log = prefix ++ e :: rest -> live e = true -> le_dst e <> le_src e ->
-      trace (rev prefix) (le_dst e) = [].
+  (** observation of a change list: the k-th most recent record whose After.Name is p (k = 0: getChangeByPath) *)
+  Definition nth_by_path (C : list change) (p : string) (k : nat) : option change :=
+    nth_error (filter (has_after p) (rev C)) k.
 
   (** ** list lemmas *)
-  Lemma find_app {A} (f : A -> bool) l1 l2 :
-    find f (l1 ++ l2) = match find f l1 with Some x => Some x | None => find f l2 end.
-  Proof. induction l1 as [|x r IH]; simpl; auto. destruct (f x); auto. Qed.
+  Lemma find_nth0 {A} (f : A -> bool) l : find f l = nth_error (filter f l) 0.
+  Proof. induction l as [|x r IH]; simpl; auto. destruct (f x); simpl; auto. Qed.
 
-  Lemma find_none_filter {A} (f g : A -> bool) l : find f l = None -> find f (filter g l) = None.
+  Lemma get_is_nth0 C p : get_change_by_path C p = nth_by_path C p 0.
+  Proof. apply find_nth0. Qed.
+
+  Lemma filter_remove_first_same {A} (f : A -> bool) l : filter f (remove_first f l) = tl (filter f l).
   Proof.
-    induction l as [|x r IH]; simpl; auto. destruct (f x) eqn:E; [discriminate|]. intro H.
-    destruct (g x); simpl; [rewrite E|]; auto.
+    induction l as [|x r IH]; simpl; auto. destruct (f x) eqn:E; simpl; auto. rewrite E. exact IH.
   Qed.
 
-  Lemma find_filter_other (p q : string) l :
-    p <> q ->
-    find (fun c => String.eqb (ch_after c) p) (filter (fun c => negb (String.eqb (ch_after c) q)) l) =
-    find (fun c => String.eqb (ch_after c) p) l.
+  Lemma filter_remove_first_other {A} (f g : A -> bool) l :
+    (forall x, f x = true -> g x = false) -> filter g (remove_first f l) = filter g l.
   Proof.
-    intro Hne. induction l as [|x r IH]; simpl; auto.
-    destruct (String.eqb (ch_after x) q) eqn:Eq; simpl.
-    - apply String.eqb_eq in Eq. assert (String.eqb (ch_after x) p = false) by (apply String.eqb_neq; congruence).
-      rewrite H. exact IH.
-    - destruct (String.eqb (ch_after x) p); auto.
+    intro H. induction l as [|x r IH]; simpl; auto. destruct (f x) eqn:E; simpl.
+    - rewrite (H x E). reflexivity.
+    - rewrite IH. reflexivity.
   Qed.
 
-  Lemma find_filter_same (q : string) l :
-    find (fun c => String.eqb (ch_after c) q) (filter (fun c => negb (String.eqb (ch_after c) q)) l) = None.
+  Lemma has_after_other p q c : p <> q -> has_after q c = true -> has_after p c = false.
   Proof.
-    induction l as [|x r IH]; simpl; auto.
-    destruct (String.eqb (ch_after x) q) eqn:Eq; simpl; auto. rewrite Eq. exact IH.
+    unfold has_after. intros Hne H. apply String.eqb_eq in H. apply String.eqb_neq. congruence.
   Qed.
+
+  Lemma nth_error_tl {A} (l : list A) k : nth_error (tl l) k = nth_error l (S k).
+  Proof. destruct l; simpl; auto. destruct k; reflexivity. Qed.
+
+  Lemma nth0_none_all {A} (l : list A) k : nth_error l 0 = None -> nth_error l k = None.
+  Proof. destruct l; [destruct k; reflexivity | discriminate]. Qed.
 
   Lemma change_of_chain_none ch : change_of_chain ch = None -> ch = [].
   Proof. destruct ch; simpl; [auto|discriminate]. Qed.
@@ -99,82 +109,93 @@ Section Trace.
     - rewrite map_app. reflexivity.
   Qed.
 
-  (** ** the refinement invariant *)
+  (** ** the refinement invariant: every observation of the change list is the record of the specified chain *)
   Definition refines (C : list change) (prefix : list entry) : Prop :=
-    forall p, get_change_by_path C p = change_of_chain (trace (rev prefix) p).
+    forall p k, nth_by_path C p k = change_of_chain (trace (rev prefix) p k).
 
   Lemma step_refines C prefix e :
-    refines C prefix ->
-    (live e = true -> le_dst e <> le_src e -> trace (rev prefix) (le_dst e) = []) ->
-    refines (step type_at allowed is_dir C e) (prefix ++ [e]).
+    refines C prefix -> refines (step type_at allowed is_dir C e) (prefix ++ [e]).
   Proof.
-    intros HI Hfresh p. rewrite rev_app_distr. simpl rev. simpl app. cbn [trace].
-    unfold step, live in *.
+    intros HI p k. rewrite rev_app_distr. simpl rev. simpl app. cbn [trace].
+    unfold step, live.
     destruct (allowed (le_dst e)) eqn:Ea; simpl; [|apply HI].
     destruct (is_dir (le_dst e)) eqn:Ed; simpl; [apply HI|].
-    specialize (Hfresh eq_refl).
-    pose proof (HI (le_src e)) as Hsrc. pose proof (HI (le_dst e)) as Hdst. pose proof (HI p) as Hp.
-    destruct (get_change_by_path C (le_src e)) as [prev|] eqn:Eprev.
-    - (* a previous change for src exists *)
-      unfold get_change_by_path in *. rewrite find_app.
+    pose proof (HI (le_src e) 0) as Hsrc.
+    rewrite get_is_nth0.
+    destruct (nth_by_path C (le_src e) 0) as [prev|] eqn:Eprev.
+    - (* a previous change for src exists: it is continued and dropped *)
+      unfold nth_by_path in *. rewrite rev_app_distr. simpl rev. unfold changes_without. rewrite rev_involutive.
+      simpl app. cbn [filter]. unfold has_after at 1. cbn [ch_after].
       destruct (String.eqb (le_dst e) p) eqn:Edp.
-      + apply String.eqb_eq in Edp. subst p.
-        assert (Hnone : find (fun c => String.eqb (ch_after c) (le_dst e)) (changes_without C (le_src e)) = None).
-        { unfold changes_without. destruct (String.eqb (le_dst e) (le_src e)) eqn:Eds.
-          - apply String.eqb_eq in Eds. rewrite Eds. apply find_filter_same.
-          - apply String.eqb_neq in Eds. apply find_none_filter. rewrite Hdst, (Hfresh Eds). reflexivity. }
-        rewrite Hnone. simpl. rewrite String.eqb_refl.
-        symmetry. apply change_of_chain_snoc. symmetry. exact Hsrc.
-      + apply String.eqb_neq in Edp.
-        destruct (String.eqb (le_src e) p) eqn:Esp.
-        * apply String.eqb_eq in Esp. subst p. unfold changes_without. rewrite find_filter_same. simpl.
-          assert (String.eqb (le_dst e) (le_src e) = false) by (apply String.eqb_neq; auto). rewrite H. reflexivity.
-        * apply String.eqb_neq in Esp. unfold changes_without. rewrite find_filter_other by auto.
-          rewrite <- Hp. destruct (find (fun c => String.eqb (ch_after c) p) C); auto.
-          simpl. assert (String.eqb (le_dst e) p = false) by (apply String.eqb_neq; auto). rewrite H. reflexivity.
-    - (* no previous change *)
-      symmetry in Hsrc. apply change_of_chain_none in Hsrc.
-      unfold get_change_by_path in *. rewrite find_app.
+      + destruct (String.eqb (le_src e) p) eqn:Esp.
+        * apply String.eqb_eq in Esp. rewrite <- Esp in *. rewrite filter_remove_first_same.
+          destruct k as [|k']; simpl.
+          -- symmetry. apply change_of_chain_snoc. symmetry. exact Hsrc.
+          -- rewrite nth_error_tl. apply (HI (le_src e) (S k')).
+        * apply String.eqb_neq in Esp. rewrite filter_remove_first_other by (intros x Hx; eapply has_after_other; eauto).
+          destruct k as [|k']; simpl.
+          -- symmetry. apply change_of_chain_snoc. symmetry. exact Hsrc.
+          -- apply (HI p k').
+      + destruct (String.eqb (le_src e) p) eqn:Esp.
+        * apply String.eqb_eq in Esp. rewrite <- Esp in *. rewrite filter_remove_first_same.
+          rewrite nth_error_tl. apply (HI (le_src e) (S k)).
+        * apply String.eqb_neq in Esp. rewrite filter_remove_first_other by (intros x Hx; eapply has_after_other; eauto).
+          apply (HI p k).
+    - (* no previous change: nothing ends at src, at any depth *)
+      assert (Hnone : forall j, trace (rev prefix) (le_src e) j = []).
+      { intro j. apply change_of_chain_none. rewrite <- (HI (le_src e) j). unfold nth_by_path in *.
+        apply nth0_none_all. exact Eprev. }
+      unfold nth_by_path in *. rewrite rev_app_distr. simpl rev. simpl app. cbn [filter]. unfold has_after at 1. cbn [ch_after].
       destruct (String.eqb (le_dst e) p) eqn:Edp.
-      + apply String.eqb_eq in Edp. subst p.
-        assert (Hnone : find (fun c => String.eqb (ch_after c) (le_dst e)) C = None).
-        { destruct (String.eqb (le_dst e) (le_src e)) eqn:Eds.
-          - apply String.eqb_eq in Eds. rewrite Eds. exact Eprev.
-          - apply String.eqb_neq in Eds. rewrite Hdst, (Hfresh Eds). reflexivity. }
-        rewrite Hnone. simpl. rewrite String.eqb_refl. rewrite Hsrc. simpl. reflexivity.
-      + apply String.eqb_neq in Edp.
-        destruct (String.eqb (le_src e) p) eqn:Esp.
-        * apply String.eqb_eq in Esp. subst p. rewrite Eprev. simpl.
-          assert (String.eqb (le_dst e) (le_src e) = false) by (apply String.eqb_neq; auto). rewrite H. reflexivity.
-        * rewrite <- Hp. destruct (find (fun c => String.eqb (ch_after c) p) C); auto.
-          simpl. assert (String.eqb (le_dst e) p = false) by (apply String.eqb_neq; auto). rewrite H. reflexivity.
+      + destruct (String.eqb (le_src e) p) eqn:Esp.
+        * apply String.eqb_eq in Esp. rewrite <- Esp in *.
+          destruct k as [|k']; simpl.
+          -- rewrite (Hnone 0). reflexivity.
+          -- rewrite (Hnone (S k')). rewrite (nth0_none_all _ k' Eprev). reflexivity.
+        * destruct k as [|k']; simpl.
+          -- rewrite (Hnone 0). reflexivity.
+          -- apply (HI p k').
+      + destruct (String.eqb (le_src e) p) eqn:Esp.
+        * apply String.eqb_eq in Esp. rewrite <- Esp in *. rewrite (Hnone (S k)).
+          rewrite (nth0_none_all _ k Eprev). reflexivity.
+        * apply (HI p k).
   Qed.
 
   Lemma fold_left_snoc {A B} (f : A -> B -> A) l x a : fold_left f (l ++ [x]) a = f (fold_left f l a) x.
   Proof. rewrite fold_left_app. reflexivity. Qed.
 
-  Theorem fold_refines_trace log :
-    fresh_dst log -> refines (fold log) log.
+  Theorem fold_refines_trace log : refines (fold log) log.
   Proof.
-    intro Hf.
-    assert (H : forall prefix rest, log = prefix ++ rest -> refines (fold prefix) prefix).
-    { induction prefix as [|e prefix' IH] using rev_ind; intros rest E.
-      - intro p. reflexivity.
-      - unfold fold, fold_log. rewrite fold_left_snoc. apply step_refines.
-        + apply (IH ([e] ++ rest)). rewrite E, <- app_assoc. reflexivity.
-        + intros Hl Hne. apply (Hf prefix' e rest); auto. rewrite E, <- app_assoc. reflexivity. }
-    apply (H log []). rewrite app_nil_r. reflexivity.
+    induction log as [|e prefix IH] using rev_ind.
+    - intros p k. unfold nth_by_path. simpl. destruct k; reflexivity.
+    - unfold fold, fold_log. rewrite fold_left_snoc. apply step_refines. exact IH.
+  Qed.
+
+  (** every record of a change list is one of these observations *)
+  Lemma in_filter_nth {A} (f : A -> bool) l x : In x l -> f x = true -> exists k, nth_error (filter f l) k = Some x.
+  Proof.
+    intros Hin Hf. apply (In_nth_error (filter f l) x). apply filter_In. split; auto.
+  Qed.
+
+  Lemma member_is_observed C ch : In ch C -> exists k, nth_by_path C (ch_after ch) k = Some ch.
+  Proof.
+    intro Hin. unfold nth_by_path. apply in_filter_nth; [apply -> in_rev; exact Hin | apply String.eqb_refl].
   Qed.
 
   (** ** structural facts that hold for every log *)
+  Lemma remove_first_In {A} (f : A -> bool) l x : In x (remove_first f l) -> In x l.
+  Proof.
+    induction l as [|y r IH]; simpl; auto. destruct (f y); simpl; auto. intros [->|H]; auto.
+  Qed.
+
   Lemma step_commits_nonempty C e :
     Forall (fun c => ch_commits c <> []) C -> Forall (fun c => ch_commits c <> []) (step type_at allowed is_dir C e).
   Proof.
     intro H. unfold step. destruct (negb (allowed (le_dst e))); auto. destruct (is_dir (le_dst e)); auto.
     destruct (get_change_by_path C (le_src e)) as [prev|].
     - apply Forall_app. split.
-      + unfold changes_without. apply Forall_forall. intros x Hx. apply filter_In in Hx. destruct Hx as [Hx _].
-        eapply Forall_forall in H; eauto.
+      + unfold changes_without. apply Forall_forall. intros x Hx. apply in_rev in Hx. apply remove_first_In in Hx.
+        apply in_rev in Hx. eapply Forall_forall in H; eauto.
       + constructor; auto. simpl. destruct (ch_commits prev); discriminate.
     - apply Forall_app. split; auto. constructor; auto. simpl. discriminate.
   Qed.
@@ -186,20 +207,15 @@ Section Trace.
   Qed.
 End Trace.
 
-(** * the unguarded refinement is false: delete b; rename a -> b; modify b *)
 Definition mk (c s src dst : string) : entry := {| le_commit := c; le_status := st s; le_src := src; le_dst := dst |}.
+
+(** the former counterexample (delete b; rename a -> b; modify b) now refines its specification: the file at b is the
+    renamed a with commits c2, c3, and the deletion of the old b is still reported (depth 1). *)
 Definition witness_log : list entry := [mk "c1" "D" "b" "b"; mk "c2" "R" "a" "b"; mk "c3" "M" "b" "b"].
 Definition witness_types : string -> string -> ptype := fun _ _ => File.
 
-Lemma refinement_refuted :
-  get_change_by_path (fold witness_types (fun _ => true) (fun _ => false) witness_log) "b" <>
-  change_of_chain witness_types (trace (fun _ => true) (fun _ => false) (rev witness_log) "b").
-Proof. vm_compute. intro H. discriminate H. Qed.
-
-Lemma witness_not_fresh : ~ fresh_dst (fun _ => true) (fun _ => false) witness_log.
-Proof.
-  intro H. specialize (H [mk "c1" "D" "b" "b"] (mk "c2" "R" "a" "b") [mk "c3" "M" "b" "b"] eq_refl eq_refl).
-  assert (Hne : le_dst (mk "c2" "R" "a" "b") <> le_src (mk "c2" "R" "a" "b")) by (vm_compute; intro E; discriminate E).
-  specialize (H Hne). vm_compute in H. discriminate H.
-Qed.
-
+Lemma witness_now_tracked :
+  map (fun c => (ch_status c, ch_before c, ch_after c, ch_commits c))
+      (fold witness_types (fun _ => true) (fun _ => false) witness_log) =
+  [(st "D", "b", "b", ["c1"]); (st "M", "a", "b", ["c2"; "c3"])].
+Proof. vm_compute. reflexivity. Qed.
